@@ -53,6 +53,11 @@ def generate(streams, tier):
                 lat = rw.sample(range(n), rw.randint(1, min(2, n - 1)))
             op.update(latents=lat, seed=rw.randrange(1000), max_iter=rw.randint(1, 5 if not big else 8), batch_size=rw.choice([1, 2, 3, 7, 1000]),
                       init_cpds=rw.random() < 0.3)
+            if k == "em" and lat and rw.random() < 0.3:
+                # a complete starting point supplied by the caller, each table listing its states in the caller's own order: the
+                # likelihood of the start is known, so the FIRST iteration is covered by "never decreases" as well
+                op["init_cpds"] = "all"
+                op["init_perm_seed"] = rw.randrange(2**31)
             op["pass_state_names"] = True
             op["weighted"] = False
         ops.append(op)
@@ -423,7 +428,25 @@ def _em(case, ctx, op):
     if op["batch_size"] < len({tuple(r[v] for v in observed) for r in rows}):
         ctx.fault("batch_knob")
     init = {}
-    if op.get("init_cpds") and lat:
+    ll0 = None
+    if op.get("init_cpds") == "all" and lat:
+        rp = random.Random(op.get("init_perm_seed", 0))
+        perms = {v: (list(range(world["card"][v])) if v in lat else shuffled(rp, range(world["card"][v]))) for v in range(n)}
+        for v in range(n):
+            ps = list(world["parents"][v])
+            t = np.asarray(world["tables"][v], dtype=float).reshape([world["card"][v]] + [world["card"][p] for p in ps])
+            for ax, u in enumerate([v] + ps):
+                t = np.take(t, perms[u], axis=ax)
+            snames = {names.L(u): [names.states[u][i] for i in perms[u]] for u in [v] + ps}
+            init[names.L(v)] = TabularCPD(names.L(v), world["card"][v], t.reshape(world["card"][v], -1).tolist(),
+                                          evidence=[names.L(p) for p in ps] or None, evidence_card=[world["card"][p] for p in ps] or None,
+                                          state_names=snames)
+        try:
+            ll0, _ = _observed_loglik(world, names, list(init.values()), rows, observed)
+        except Mismatch:
+            ll0 = None
+        ctx.probe("em_complete_start_point")
+    elif op.get("init_cpds") and lat:
         # initial CPDs for the latent variables themselves: the world's tables
         from ..realise import make_cpd
 
@@ -469,13 +492,57 @@ def _em(case, ctx, op):
         compare_cpds(ctx, last, names, world, want, "em_without_latents")
         return
     ctx.probe("em_iterations", len(lls))
+    # the implementation floors every likelihood factor at 1e-10: with exact zeros among the parameters a latent state that is
+    # impossible for a row keeps a weight of the order 1e-10, which can cost the likelihood a relative 1e-9 or so per row; such
+    # iterates are held to a looser bound (1e-6 relative), all others to 1e-9
+    slack = 1e-6 if floor_hit else 1e-9
     if floor_hit:
-        ctx.probe("em_floor_excluded")
-    else:
-        for a, b in zip(lls, lls[1:]):
-            if b < a - 1e-9 * max(1.0, abs(a)):
-                ctx.fail("monotone", f"{PROP}:em_likelihood_decreased", {"lls": lls, "latents": lat, "seed": op["seed"]})
+        ctx.probe("em_floor_loose_bound")
+    if True:
+        if ll0 is not None and np.isfinite(ll0) and min(float(np.min(to_np(c.values))) for c in init.values()) > 1e-8:
+            seq = [ll0] + lls   # the caller's starting point counts as iteration 0
+        else:
+            seq = lls
+        for a, b in zip(seq, seq[1:]):
+            if b < a - slack * max(1.0, abs(a)):
+                ctx.fail("monotone", f"{PROP}:em_likelihood_decreased", {"lls": seq, "latents": lat, "seed": op["seed"], "from_start_point": len(seq) != len(lls)})
                 break
+    # restart: the caller takes the parameters reached so far (a point EM has already climbed to), writes the tables down with the
+    # states of the observed variables in an order of his own, and continues from there with one more iteration: the likelihood
+    # must not fall below what had been reached ("never decreases from one iteration to the next", for a supplied start as well)
+    if op.get("restart", True) and np.isfinite(lls[-1]):
+        rp = random.Random(op.get("init_perm_seed", op["seed"]) + 17)
+        init2 = {}
+        try:
+            for c in last:
+                vals = to_np(c.values)
+                vars_ = list(c.variables)
+                sn2 = {}
+                for ax, var in enumerate(vars_):
+                    order_ = list(range(vals.shape[ax]))
+                    if names.lab2idx[var] not in lat:
+                        rp.shuffle(order_)
+                    vals = np.take(vals, order_, axis=ax)
+                    sn2[var] = [c.state_names[var][i_] for i_ in order_]
+                init2[c.variable] = TabularCPD(c.variable, vals.shape[0], vals.reshape(vals.shape[0], -1).tolist(), evidence=vars_[1:] or None,
+                                               evidence_card=list(vals.shape[1:]) or None, state_names=sn2)
+            seams.reset_environment()
+            seams.install_parallel(random.Random(op["jobseed"] + 4242), ctx)
+            model = build_structure(world, config, names, latents=lat)
+            em = ExpectationMaximization(model, df, state_names=sn)
+            nxt = em.get_parameters(latent_card=latent_card or None, max_iter=1, atol=1e-30, n_jobs=op["n_jobs"], batch_size=op["batch_size"], seed=op["seed"],
+                                    show_progress=False, init_cpds=init2)
+            ll_next, _ = _observed_loglik(world, names, nxt, rows, observed)
+            ctx.probe("em_restart_checked")
+            if ll_next < lls[-1] - slack * max(1.0, abs(lls[-1])):
+                ctx.fail("monotone", f"{PROP}:em_likelihood_decreased:after_restart", {"reached": lls[-1], "after_one_more_iteration": ll_next, "latents": lat, "seed": op["seed"]})
+                return
+        except Mismatch as e:
+            ctx.fail("aligned", f"{PROP}:labels:em", str(e))
+            return
+        except Exception as e:
+            ctx.fail("succeeds", f"{PROP}:raise:em_restart:{type(e).__name__}:{exc_site(e)}", {"exc": exc_brief(e), "latents": lat})
+            return
     # schedule independence: another batch size / worker schedule, same seed -> same parameters
     try:
         alt_bs = 1000 if op["batch_size"] != 1000 else 2
